@@ -3,8 +3,9 @@
 (* C18: where documents come from.                                         *)
 (*                                                                         *)
 (* S3 listing: the bucket answers a listing request for a prefix in pages. *)
-(* A key is [under, suf, n]: under the requested prefix or not, carrying    *)
-(* the suffix or not, n = its rank in key order.  The service only returns *)
+(* A key is [under, suf, n]: under the requested prefix or not, ending with *)
+(* the suffix / containing it in the middle / not at all, n = its rank.     *)
+(*  The service only returns *)
 (* keys under the prefix (an empty prefix matches every key), PageSize per *)
 (* page; a listing without results is one page without contents.           *)
 (* get_mos_files must return every key under the prefix that has the       *)
@@ -31,7 +32,10 @@ ListingPages(keys, prefixGiven, size) ==
   LET sv == Served(keys, prefixGiven) IN IF sv = <<>> THEN << <<>> >> ELSE Pages(sv, size)
 
 (* the required result                                                    *)
-Listing(keys, prefixGiven) == SelectSeq(Served(keys, prefixGiven), LAMBDA k : k.suf)
+(* k.suf: "end" - the key ends with the suffix; "mid" - the suffix occurs inside the key only;  *)
+(*        "none"                                                                                *)
+HasSuffix(k) == k.suf = "end"
+Listing(keys, prefixGiven) == SelectSeq(Served(keys, prefixGiven), HasSuffix)
 
 (* sources: all ways of loading one content agree                         *)
 SourcesAgree(outcomes) ==
